@@ -371,6 +371,8 @@ func init() {
 			{Key: "C36:start-of-line-after-escaped-newline", Case: c36Case{Kind: "known", Src: "&NewLine;<div>"}},
 			{Key: "C36:marker-only-line-is-thematic-break", Case: c36Case{Kind: "known", Src: "+ + +\n       <A>\n"}},
 			{Key: "C36:indented-html-block-absorbed-by-short-marker-item", Case: c36Case{Kind: "known", Src: "  -\n     <b>\n\n   <c>\n"}},
+			{Key: "C36:heading-attribute-lookalike-unescaped", Case: c36Case{Kind: "known", Src: "# a \\{#x}"}},
+			{Key: "C36:heading-attribute-lookalike-unescaped", Case: c36Case{Kind: "known", Src: "# `a {`b}"}},
 		},
 	})
 	vs.Register(vs.Prop[c36Case]{
